@@ -178,12 +178,13 @@ CLAIMED = {
              "meta prescan, parent (unless UTF-16), likely, default, windows-1252 that yields an encoding (stated "
              "against an independent first_some specification; the order of the sources is read from the AST on every "
              "run), it is certain exactly for the first three, a certain encoding is independent of document content, "
-             "a declared UTF-16 means UTF-8, only the first 1024 bytes are prescanned, every label of the table "
-             "resolves. PARTIAL: the prescan mini-parser (EncodingBytes/EncodingParser/ContentAttrParser with "
+             "a declared UTF-16 means UTF-8 and x-user-defined means windows-1252, only the first 1024 bytes are "
+             "prescanned, every label of the table resolves. PARTIAL: the prescan mini-parser (EncodingBytes/EncodingParser/ContentAttrParser with "
              "StopIteration as an outcome) is transcribed and tied to the code by exact-agreement correspondence "
              "(4000 byte strings/run); its agreement with the standard's prescan is decided by search against my "
              "transcription of the standard (six recorded deviations = known finding); the late-meta reparse and the "
-             "decoders are not modelled (exercised end-to-end by C05/C15 runs).",
+             "decoders are not modelled (the reparse is decided end-to-end against the standard's rule for a meta start "
+             "tag; 6 encoding defects found by an independent audit repaired; 2 listed findings).",
         design_ref="DESIGN.md 3 C06",
         note="webencodings.LABELS is an environment fact; chardet is absent (branch unreachable here).",
         technique="Coq proof (case analysis over the precedence cascade) + translated order/table facts + "
@@ -345,9 +346,11 @@ CLAIMED = {
              "with the WHATWG switches on, every difference classified by flipping one switch at a time. Theorems: "
              "all 24 tables and the 23 dispatch tables re-read from the source equal the fixed copies TC was written "
              "against; the scope walk always stops and is true exactly when an HTML element with the target name comes before any stop element; clearing the stack back to a table context is total and pops exactly down to the topmost HTML stop element. PARTIAL: no theorem relates TC to the standard (it IS the "
-             "transcription) and the agreement implementation = TC is tested, not proved; 4 listed findings.",
+             "transcription; cross-checked on every run against 56 hand-derived WHATWG trees, "
+             "tools/props/c01_whatwg_witnesses.json, after four independent audits found 15 deviations that model and "
+             "code shared) and the agreement implementation = TC is tested, not proved; 8 listed findings.",
         design_ref="DESIGN.md 3 C01",
-        note="ten deviations and defects repaired in /repo; 189 parser functions hash-pinned.",
+        note="25 deviations and defects repaired in /repo; 192 parser functions hash-pinned.",
         technique="Coq model + table-equality theorems + differential correspondence on trees (extracted OCaml)"),
 }
 
